@@ -42,7 +42,14 @@ def parseReq (toks : List String) : Option Req :=
   match toks with
   | ["c01.e2e", _mode, shards, _pad, inst, assign, recs] => do
       let w ← widthsOf inst
-      pure { w := w, shards := ← shards.toNat?, assign := ← parseNatList assign, recs := ← parseRecs recs }
+      let recs ← parseRecs recs
+      -- `rnd`: the fixture's seeded Random distribution (unobservable; the generator sends enough keys that
+      -- no shard stays empty): any assignment gives the same modelled result, round robin is used
+      let assign ← if assign = "rnd" then some (List.range recs.length) else parseNatList assign
+      pure { w := w, shards := ← shards.toNat?, assign := assign, recs := recs }
+  -- `Query::execute`: production instantiation, default padding, malicious contexts
+  | ["c01.query", shards, assign, recs] => do
+      pure { w := prodW, shards := ← shards.toNat?, assign := ← parseNatList assign, recs := ← parseRecs recs }
   | _ => none
 
 def parseRows (s : String) : Option (List Row) :=
@@ -77,6 +84,14 @@ def handle (toks : List String) : Option String :=
       match runOutcome r.w aggChunk shards with
       | none => some "hang"
       | some h => some (showNatList h)
+  | "c01.query" :: _ =>
+    -- the encrypted reports are first resharded by their unique tag (unobservable here), so the shard a
+    -- report is received on does not determine where it is processed: by `pipeline_eq_spec` the result
+    -- does not depend on the distribution as long as no shard is left without rows (finding F8; the
+    -- generator sends >= 30 match keys to every shard)
+    match parseReq toks with
+    | none => some "bad-request"
+    | some r => some (showNatList (run r.w aggChunk (distribute r.shards r.assign r.recs)))
   | _ => none
 
 /-- spec-side: rows of `aggregate_reports` = for every pseudonym carried by exactly two reports (in
@@ -99,7 +114,7 @@ def oracle (toks : List String) (impl : String) : Option String :=
       let expect := (List.range 256).map (fun b => min (((rows.filter (·.1 == b)).map (·.2)).sum) (2 ^ hv - 1))
       if impl = showNatList expect then some "holds" else some "fails bucket totals differ from the saturated sums"
     | _, _ => some "unknown"
-  | "c01.e2e" :: _ =>
+  | "c01.e2e" :: _ | "c01.query" :: _ =>
     match parseReq toks with
     | none => some "unknown"
     | some r =>
